@@ -358,19 +358,27 @@ impl<W: Wt> Model<W> {
     /// infinity; D_{k+1}[v] = min(D_k[v], min_{u->v} D_k[u] + w(u,v)).
     /// Synchronous rounds (each round reads only the previous round).
     pub fn walk_dp(&self, sources: &[usize]) -> WalkDp {
-        let n = self.v.len();
-        let mut d: BTreeMap<usize, Option<i128>> =
-            self.v.iter().map(|&v| (v, None)).collect();
+        // vertices are addressed by their position in the sorted vertex list
+        let vs: Vec<usize> = self.v.iter().copied().collect();
+        let pos = |v: usize| vs.binary_search(&v).expect("harness: arc endpoint not in V");
+        let n = vs.len();
+        let arcs: Vec<(usize, usize, i128)> = self
+            .a
+            .iter()
+            .map(|(&(u, v), w)| (pos(u), pos(v), w.to_i128()))
+            .collect();
+        let mut d: Vec<Option<i128>> = vec![None; n];
         for &s in sources {
-            d.insert(s, Some(0));
+            d[pos(s)] = Some(0);
         }
-        let step = |d: &BTreeMap<usize, Option<i128>>| {
+        // one synchronous round: reads only the previous round's values
+        let step = |d: &Vec<Option<i128>>| {
             let mut e = d.clone();
-            for (&(u, v), w) in &self.a {
-                if let Some(du) = d[&u] {
-                    let c = du + w.to_i128();
-                    if e[&v].map_or(true, |x| c < x) {
-                        e.insert(v, Some(c));
+            for &(u, v, w) in &arcs {
+                if let Some(du) = d[u] {
+                    let c = du + w;
+                    if e[v].map_or(true, |x| c < x) {
+                        e[v] = Some(c);
                     }
                 }
             }
@@ -391,7 +399,7 @@ impl<W: Wt> Model<W> {
             rounds = n;
         }
         WalkDp {
-            dist: d,
+            dist: vs.iter().copied().zip(d).collect(),
             negative_circuit,
             rounds,
         }
